@@ -28,7 +28,8 @@ def sh(cmd, cwd=None, timeout=1800):
 
 
 def run_tests(wt, name=None):
-    cmd = ['cargo', 'test', '--offline'] + ([name] if name else []) + ['--', '--test-threads', '1']
+    # own network namespace: the socket tests bind fixed ports from 7888 upwards
+    cmd = "unshare -n sh -c 'ip link set lo up; cargo test --offline %s -- --test-threads 1'" % (name or '')
     rc, out = sh(cmd, cwd=wt)
     res = {}
     for l in out.splitlines():
